@@ -135,7 +135,10 @@ CLAIMS = {
          'tricks, score type, per-side scores keyed by side, dda), log_as_settings (the same document is a board-settings source yielding the same '
          'boards in order). Unbounded documents, by structural induction. Tie to /repo: writer text as strict JSON token stream, parser results '
          'with Python types checked, schema verdicts (jsonschema on the real files vs the Lean validator on the translation), reader model vs '
-         'json.loads, plus an independent Python oracle (read-back == written).',
+         'json.loads, plus an independent Python oracle (read-back == written). ALSO by translation: json_handler/writer.py and parser.py are re-written on '
+         'every run into a MiniPy program (Generated/PyCoreJson.lean) and Translated/JsonWriter.lean proves that the translated writers leave exactly the '
+         'model text (logText / settingsText) for every list of entries (hypotheses shown necessary), Translated/JsonParser.lean that the translated '
+         'parser returns the model records whenever the model reads the document (three forms; two abstractions of the hand model exposed and kernel-checked).',
          'Trusted: Lean kernel (3 standard axioms); the re-implementations of json.dumps / json.loads in Model/Json.lean (differential-tested; floats '
          'and lone surrogates outside the domain); the schema translator (fails loudly on keywords outside type/properties/required/items/$ref) and '
          'jsonschema Draft 7 as reference semantics; model faithfulness on documents not sampled.',
@@ -175,7 +178,9 @@ CLAIMS = {
          'exactly the fifteen tags with the written values), consecutive_results_are_separate_games, export_as_settings (deal, dealer, '
          'vulnerability and board number recovered as a board setting), old_writer_merged_games (negative, kernel-evaluated). Proof: the export '
          'text IS an admissible layout of C17 (export_is_layout), then C17\'s reader theorem. Correspondence: real PbnWriter chunks, lengths, '
-         'parse_all / parse_board_settings of the written text, write_line around 254/255/256/509/510 characters; independent oracle.',
+         'parse_all / parse_board_settings of the written text, write_line around 254/255/256/509/510 characters; independent oracle. ALSO by translation: '
+         'Translated/PbnWriter.lean proves that the PbnWriter methods as translated from the source on this run (Generated/PyCoreJson.lean) produce exactly '
+         'the model chunk lists (write_line loop by induction, tag pairs, board results, whole documents; AssertionError exactly where the model has none).',
          'Trusted: as C17; strftime("%Y.%m.%d") modelled with an unpadded year (glibc). Round trip claimed for tag pairs that fit on one line '
          '(the format\'s own limit); the line-length claim is unconditional.',
          'Lean 4 proof (reduction of the export text to an admissible import layout) + differential correspondence'),
@@ -219,9 +224,13 @@ CLAIMS = {
          'team_names_round_trip (all names without a double quote / line break), connect_round_trip, lead_prompt_round_trip; framing: '
          'recv_one_frame, framing_round_trip (any sequence of CR-free messages followed by any partial frame is received intact and in order '
          'and the reader then stops), chunking_irrelevant, reader_stops_at_eof (every reader state), reader_spins_at_eof_old (negative '
-         'theorem about the reader before the fix). Unbounded message lengths and sequences, by induction.',
+         'theorem about the reader before the fix). Unbounded message lengths and sequences, by induction. ALSO on the code as TRANSLATED on this run '
+         '(builders and parsers of client.py / server.py / socket_interface.py in Generated/PyCoreNet.lean, their regular expressions run by the generic '
+         'engine Model/Regex.lean): Translated/Messages.lean — every call x seat and every card x seat x notation x case is built and read back, wrong '
+         'seat refused, headers, connection lines, by kernel evaluation; Translated/NetHelpers.lean — Server.hand_to_str = the model builder on every hand.',
          'Trusted: Lean kernel (3 standard axioms); each Python regex is represented by a hand-written scanner whose agreement with `re` is '
-         'differential-tested on the generated strings (DESIGN appendix F); UTF-8 codec; socket.recv semantics. The receiver is compared on '
+         'differential-tested on the generated strings (DESIGN appendix F); the generic regex engine Model/Regex.lean (differential-tested against CPython, '
+         're-validated on every run); UTF-8 codec; socket.recv semantics. The receiver is compared on '
          'the real MessageInterface.receive_message over a fake socket with end-of-stream injected at every byte position.',
          'Lean 4 proof (scanner models of the regexes, induction over messages and byte streams) + differential correspondence incl. EOF injection'),
 }
